@@ -59,19 +59,46 @@ func witnessFromReader(reader io.Reader) (Witness, error) {
 			return nil, err
 		}
 
-		witnessSize += uint64(chunkLength)
-		if witnessSize > WitnessMaximumSize {
+		if uint64(chunkLength) > WitnessMaximumSize-witnessSize {
 			return nil, ErrInvalidWitnessFormat
 		}
+		witnessSize += uint64(chunkLength)
 
-		witness[i] = make([]byte, chunkLength)
-		_, err = io.ReadFull(reader, witness[i])
+		witness[i], err = readBounded(reader, uint64(chunkLength))
 		if err != nil {
 			return nil, err
 		}
 	}
 
 	return witness, nil
+}
+
+// readChunkSize is the largest number of bytes allocated ahead of the data actually read.
+const readChunkSize = 1 << 16
+
+// readBounded reads exactly n bytes from r. The buffer grows as data arrives, so a declared
+// length which the reader cannot satisfy costs at most readChunkSize bytes beyond what was read.
+func readBounded(r io.Reader, n uint64) ([]byte, error) {
+	first := n
+	if first > readChunkSize {
+		first = readChunkSize
+	}
+
+	buf := make([]byte, 0, first)
+	for uint64(len(buf)) < n {
+		step := n - uint64(len(buf))
+		if step > readChunkSize {
+			step = readChunkSize
+		}
+
+		start := len(buf)
+		buf = append(buf, make([]byte, step)...)
+		if _, err := io.ReadFull(r, buf[start:]); err != nil {
+			return nil, err
+		}
+	}
+
+	return buf, nil
 }
 
 // Size returns the serialized size of the Witness.
